@@ -103,11 +103,7 @@ def value_region(t, v, env, tagdefault=None):
     """finding id of a value-dependent deviation region hit by value v of type t, or None"""
     k = t["k"]
     if k == "REF": return value_region(env[t["name"]], v, env, tagdefault)
-    if k == "INTEGER":
-        c = t.get("cons")
-        if c and c["lo"] == 0 and c["hi"] is None and v > 0 and v.bit_length() % 8 == 0:
-            return "F110"          # semi-constrained: 2's complement octets instead of non-negative-binary-integer
-        return None
+    if k == "INTEGER": return None
     if k in KM7:
         sz = t.get("size")
         if sz and sz["ext"] and not genmod.in_cons(sz, len(v)): return "F113"     # 8-bit characters outside the root
@@ -131,7 +127,6 @@ def value_region(t, v, env, tagdefault=None):
         if i < n:
             order = canonical_order(t, env, tagdefault)
             if order[order[i]] != i: return "F28"      # to_canonical / from_canonical tables swapped
-        elif i - n >= 64: return "F29"
         return value_region(t["comps"][i]["type"], x, env, tagdefault)
     if k in ("SEQUENCE OF", "SET OF"):
         for x in v:
@@ -226,7 +221,8 @@ def fixed_module(rng, quick=True):
     # --- INTEGER: range width boundaries (range_bits)
     for i, (lo, hi, ext) in enumerate([(1, 2, False), (1, 3, False), (1, 4, False), (1, 5, False), (0, 15, False), (0, 16, False), (-1, 0, False),
                                         (0, 31, True), (0, 32, True), (-3, 4, True), (10, 10, True), (0, (1 << 32) - 1, True), (0, 1 << 32, False),
-                                        (0, (1 << 62), False), (1, (1 << 31), False), (0, None, True), (None, 5, False)]):
+                                        (0, (1 << 62), False), (1, (1 << 31), False), (0, None, True), (None, 5, False),
+                                        (5, None, False), (-5, None, False), (1, None, True), (-129, None, True)]):   # semi-constrained, lb != 0 (F42 / F110 repaired)
         c = cons(lo, hi, ext)
         vs = sorted(v for v in genmod.int_boundaries(c) if genmod.in_cons(c, v) or ext)
         if lo is not None and lo >= 0: vs = [v for v in vs if v >= 0]
@@ -282,15 +278,9 @@ def fixed_module(rng, quick=True):
 def _w(fid, what, module, type_, op, expect, matcher, x691):
     return {"id": fid, "property": "C02", "properties": ["C02"], "status": "known", "what": what,
             "witness": {"module": module, "type": type_, "op": op, "expect": expect, "x691": x691},
-            "matcher": matcher, "lean_reference": "Asn1c.Props.C02Uper.ref_%s_witness" % fid if fid in ("F110", "F111", "F112", "F113", "F114", "F28") else None}
+            "matcher": matcher, "lean_reference": "Asn1c.Props.C02Uper.ref_%s_witness" % fid if fid in ("F111", "F112", "F113", "F114", "F28") else None}
 
 PROPOSED_FINDINGS = [
-    _w("F110", "UPER: a semi-constrained INTEGER (lb..MAX) is written as minimal TWO'S COMPLEMENT octets instead of the "
-               "non-negative-binary-integer of X.691 10.7.4/10.3.6: every value whose top bit is set gets an extra leading 00 octet "
-               "(INTEGER (0..MAX), 128 => 02 00 80 instead of 01 80); the decoder reads the octets as two's complement too, so the "
-               "standard encoding 01 80 of 128 is decoded as a negative number",
-       "M DEFINITIONS ::= BEGIN T ::= INTEGER (0..MAX) END", "T", "enc uper (int 128)", r"^ok 020080$",
-       "syntax == uper and an INTEGER (0..MAX) value v > 0 with v.bit_length() % 8 == 0", "ok 0180"),
     _w("F111", "UPER: a type assignment that merely references an unconstrained known-multiplier string type gets no PER constraints "
                "(same family as F38/F46): T ::= GeneralizedTime / UTCTime (the time types are references to skeleton types), or B ::= A with "
                "A ::= IA5String / VisibleString / BMPString ...: the characters of T / B - and of every member, element or alternative of type "
@@ -376,7 +366,8 @@ def run_uper(ctx, nb=None, nvals=None):
     mods = [dict(m, types=[(n, _set_to_sequence(t)) for n, t in m["types"]]) for m in c01.gen_bundles(ctx, nb)]
     bm, bvals = genmod.boundary_module(ctx.rng, ctx.quick)
     fm, fvals = fixed_module(ctx.rng, ctx.quick)
-    cases = [(fm, fvals), (bm, bvals)]
+    xm, xvals = genmod.ext64_module(ctx.rng)       # extension indexes / bitmap lengths from 64 on (F29 / F64 repaired)
+    cases = [(fm, fvals), (bm, bvals), (xm, xvals)]
     for m in mods:
         env = dict(m["types"])
         vg = genmod.ValGen(ctx.rng, env)
